@@ -276,7 +276,7 @@ Section Loop.
     cbn [chain]. exists d. split; [reflexivity|]. split; [lia|]. split; [lia|]. split.
     { unfold d, pyslice, frag_slice_lo, frag_slice_hi. symmetry. apply firstn_length_firstn. }
     split.
-    { unfold frag_at. rewrite (fill_template_size (Z.to_N off) (olen payload) d). fold t.
+    { pose proof (fill_template_size (Z.to_N off) (olen payload) d) as Hsz. fold t in Hsz. rewrite Hsz.
       assert (Hh : (head_len (olen d) <= head_len (olen payload))%nat).
       { apply head_len_mono. unfold olen. fold plen in Hlen. unfold plen in *. lia. }
       unfold fs, frag_size in *. unfold pse, pyld_size_enc in *. lia. }
@@ -312,10 +312,10 @@ Section Loop.
     concat (map frag_data l) = skipn (Z.to_nat off) payload.
   Proof.
     induction l as [|f r IH]; intros off Hoff H.
-    - cbn in *. rewrite skipn_all2; [reflexivity|]. unfold plen in H. lia.
+    - cbn [chain map concat] in *. rewrite skipn_all2; [reflexivity|]. unfold plen in H. lia.
     - cbn [chain] in H. destruct H as (d & -> & Hd1 & Hlt & Hd & _ & Hr).
       cbn [map concat]. unfold frag_at. rewrite fill_template_data.
-      rewrite (IH _ ltac:(lia) Hr).
+      rewrite (IH (off + Z.of_nat (length d))) by (lia || exact Hr).
       rewrite <- (firstn_skipn (length d) (skipn (Z.to_nat off) payload)) at 1.
       rewrite <- Hd. rewrite skipn_skipn. do 2 f_equal. lia.
   Qed.
@@ -346,7 +346,7 @@ Section Loop.
   Proof.
     induction l as [|f r IH]; intros off Hoff H; [cbn; lia|].
     cbn [chain] in H. destruct H as (d & -> & Hd1 & Hlt & Hd & _ & Hr).
-    specialize (IH _ ltac:(lia) Hr). cbn [length]. lia.
+    specialize (IH (off + Z.of_nat (length d)) ltac:(lia) Hr). cbn [length]. lia.
   Qed.
 End Loop.
 
@@ -424,7 +424,7 @@ Section Send.
   Proof.
     induction l as [|f r IH]; intros off Hoff H; [reflexivity|].
     cbn [chain] in H. destruct H as (d & -> & Hd1 & Hlt & Hd & _ & Hr).
-    cbn [map concat]. rewrite reenter_fragment. cbn [app]. f_equal. apply (IH _ ltac:(lia) Hr).
+    cbn [map concat]. rewrite reenter_fragment. cbn [app]. f_equal. apply (IH (off + Z.of_nat (length d))); [lia|exact Hr].
   Qed.
 
   Lemma send_request_frags b m l :
